@@ -38,6 +38,10 @@ pub fn build_database(dir: &str, rep: &mut Report) -> bool {
             "CREATE TABLE u (id INT PRIMARY KEY, name VARCHAR(20) NOT NULL DEFAULT 'x', n INT UNIQUE, ok BOOLEAN)".into(),
             "CREATE TABLE v (id INT PRIMARY KEY, e VECTOR(4))".into(),
             "CREATE INDEX v_e ON v USING hnsw (e)".into(),
+            // every constraint kind the catalog serializes (column-level REFERENCES with and without actions, CHECK, NOT NULL, UNIQUE)
+            "CREATE TABLE w (id INT PRIMARY KEY, uid INT REFERENCES u(id) ON DELETE CASCADE ON UPDATE RESTRICT, tid BIGINT REFERENCES t(id), q INT CHECK (q > 0), r INT NOT NULL, s INT UNIQUE)".into(),
+            "INSERT INTO w VALUES (1, 1, 1, 5, 0, 7)".into(),
+            "INSERT INTO w VALUES (2, 2, NULL, 6, 0, 8)".into(),
         ];
         for chunk in 0..30 {
             let rows: Vec<String> = (0..100)
